@@ -7,7 +7,8 @@ THEOREMS = {
     },
     "C02": {
         "modules": ["Abnf.Theorems.C02"],
-        "theorems": ["Abnf.C02.parse_returns_longest", "Abnf.C02.parse_fails_iff_no_match", "Abnf.C02.parse_all_spec"],
+        "theorems": ["Abnf.C02.parse_returns_longest", "Abnf.C02.parse_fails_iff_no_match", "Abnf.C02.parse_all_spec",
+                     "Abnf.C02.parse_is_max_of_derivable", "Abnf.C02.parse_all_iff_whole_input_derivable"],
     },
     "C03": {
         "modules": ["Abnf.Theorems.C03"],
@@ -66,19 +67,19 @@ THEOREMS = {
     },
     "C05": {
         "modules": ["Abnf.Theorems.C01", "Abnf.Theorems.C12"],
-        "theorems": ["Abnf.C01.reported_end_is_derivable", "Abnf.closed_noGerr"],
+        "theorems": ["Abnf.C01.ends_iff_derivable", "Abnf.closed_noGerr"],
     },
     "C09": {
         "modules": ["Abnf.Theorems.C01", "Abnf.Theorems.C12", "Abnf.Theorems.C11"],
-        "theorems": ["Abnf.C01.reported_end_is_derivable", "Abnf.closed_noGerr", "Abnf.C11.first_match"],
+        "theorems": ["Abnf.C01.ends_iff_derivable", "Abnf.closed_noGerr", "Abnf.C11.first_match"],
     },
     "C15": {
         "modules": ["Abnf.Theorems.C01"],
-        "theorems": ["Abnf.C01.reported_end_is_derivable"],
+        "theorems": ["Abnf.C01.ends_iff_derivable"],
     },
     "C19": {
         "modules": ["Abnf.Theorems.C01"],
-        "theorems": ["Abnf.C01.reported_end_is_derivable"],
+        "theorems": ["Abnf.C01.ends_iff_derivable"],
     },
     "C16": {
         "modules": ["Abnf.Theorems.C16"],
